@@ -169,6 +169,31 @@ def generate(ctx):
             a = {'a': aa.tolist(), 'b': bb.tolist()}
         ctx.count('hybrid:' + h)
         yield 'hybrid', {'hyb': h, 'ab': a, 'sigma': sig, 'sp': sp, 'fseed': int(rng.integers(0, 2 ** 31))}
+    # batched hybrid -> sigma (leading axis on surface pressure and field)
+    for r in range(2 if quick else 6):
+        h = ['synthetic', 'UFS127', 'ECMWF137'][r % 3]
+        a = None
+        if h == 'synthetic':
+            up = np.concatenate([[0.0], np.cumsum(rng.integers(1, 40, size=4)).astype(np.float64)])
+            a = {'a': np.concatenate([up, np.linspace(up[-1], 0.0, 6)[1:]]).tolist(),
+                 'b': np.concatenate([np.zeros(5), np.linspace(0.0, 1.0, 6)[1:]]).tolist()}
+        yield 'hybrid_batch', {'hyb': h, 'ab': a, 'sigma': util.uneven_boundaries(rng, 6).tolist(),
+                               'sp': (500.0 + 550.0 * rng.integers(0, 1025, size=(2, 2, 2)) / 1024.0).tolist(),
+                               'fseed': int(rng.integers(0, 2 ** 31))}
+    # batched ConservativeRegridder: NaN pattern differs from slice to slice
+    batch_pats = [['none', 'single', 'row', 'all'], ['single', 'none', 'blob', 'lonline'], ['all', 'none', 'single', 'row'],
+                  ['row', 'row', 'none', 'single']]
+    for r in range(6 if quick else 30):
+        small = r % 3 != 2
+        lo = [3, 4, 5, 6, 8] if small else [8, 12, 16, 24]
+        nls = int(lo[int(rng.integers(0, len(lo)))]); nlt = int(lo[int(rng.integers(0, len(lo)))])
+        src = {'nlon': nls, 'nlat': max(2, nls // 2), 'spacing': SPACINGS[int(rng.integers(0, 3))], 'offset': [0.0, 0.05, 0.3][int(rng.integers(0, 3))]}
+        tgt = {'nlon': nlt, 'nlat': max(2, nlt // 2), 'spacing': SPACINGS[int(rng.integers(0, 3))], 'offset': [0.0, 0.05, 0.3][int(rng.integers(0, 3))]}
+        lead = [[4], [2, 2], [3], [2, 3]][r % 4]
+        ctx.count('batch:lead=%s' % lead); ctx.count('batch:' + ('model+oracle' if small else 'oracle-only'))
+        for skipna in (0, 1):
+            yield 'regrid_batch', {'src': src, 'tgt': tgt, 'skipna': skipna, 'lead': lead, 'patterns': batch_pats[r % 4],
+                                   'model': bool(small), 'fseed': int(rng.integers(0, 2 ** 31))}
     # full ConservativeRegridder
     n2 = 14 if quick else 60
     pats = ['none', 'single', 'row', 'all', 'blob', 'lonline']
@@ -411,6 +436,39 @@ def r_hybrid(ctx, a):
         ctx.count('hybrid:' + ('fully covered' if np.all(cov == np.diff(tb)) else 'partially covered'))
 
 
+def r_hybrid_batch(ctx, a):
+    """regrid_hybrid_to_sigma with a leading batch axis on both surface pressure and field:
+    every batch entry equals the unbatched call."""
+    jnp, hi, vi, sh, sc = J()
+    h = _hybrid(a)
+    if h is None:
+        ctx.count('hybrid:unavailable:' + a['hyb']); return
+    sig = sc.SigmaCoordinates(np.asarray(a['sigma'], dtype=np.float64))
+    sp = np.asarray(a['sp'], dtype=np.float64)           # (T, x, y)
+    T = sp.shape[0]; m, n = h.layers, sig.layers
+    x = _field(a['fseed'], (T, m) + sp.shape[1:], 200 * 8, 300 * 8)
+    try:
+        out = np.asarray(vi.regrid_hybrid_to_sigma(jnp.asarray(x), h, sig, jnp.asarray(sp)))
+    except Exception as e:
+        ctx.count('hybrid_batch: leading axes not accepted (%s)' % type(e).__name__); return
+    ctx.exact('regrid_hybrid_to_sigma batched shape', list(out.shape), [T, n] + list(sp.shape[1:]))
+    tb = np.asarray(sig.boundaries, dtype=np.float64)
+    for t in range(T):
+        one = np.asarray(vi.regrid_hybrid_to_sigma(jnp.asarray(x[t]), h, sig, jnp.asarray(sp[t])))
+        ctx.oracle('hybrid->sigma: leading axes are regridded independently (NaN placement)',
+                   bool(np.array_equal(np.isnan(out[t]), np.isnan(one))))
+        ctx.oracle_close('hybrid->sigma: leading axes are regridded independently (values)', np.nan_to_num(out[t]), np.nan_to_num(one),
+                         scale=float(np.abs(x).max()))
+        for idx in np.ndindex(sp.shape[1:]):
+            col = x[(t, slice(None)) + idx]; ocol = out[(t, slice(None)) + idx]
+            mm = ctx.model.call(9, [n, m], [h.a_boundaries, h.b_boundaries, [sp[(t,) + idx]], tb, col])
+            if mm is None:
+                ctx.corr('regrid_hybrid_to_sigma (batched)', ocol, None); continue
+            nanrow = np.isnan(ocol)
+            ctx.exact('regrid_hybrid_to_sigma (batched): NaN layers', nanrow.astype(int).tolist(), [int(v == 0) for v in mm[m + 1 + n:]])
+            ctx.corr('regrid_hybrid_to_sigma (batched)', np.where(nanrow, 0.0, ocol), mm[m + 1:m + 1 + n], scale=float(np.abs(col).max()))
+
+
 def _nan_pattern(pat, shape, seed):
     r = np.random.Generator(np.random.PCG64(seed + 17))
     mask = np.zeros(shape, dtype=bool)
@@ -437,11 +495,46 @@ def r_regrid2d(ctx, a):
     field = np.where(nanmask, np.nan, vals)
     out = np.asarray(rg(jnp.asarray(field)))
     ctx.exact('ConservativeRegridder output shape', list(out.shape), [na, nc])
-    wlon = np.asarray(rg.lon_weights); wlat = np.asarray(rg.lat_weights)
-    _weight_oracles(ctx, '2d longitude', wlon); _weight_oracles(ctx, '2d latitude', wlat)
+    _weight_oracles(ctx, '2d longitude', np.asarray(rg.lon_weights)); _weight_oracles(ctx, '2d latitude', np.asarray(rg.lat_weights))
+    _lon_obligations(ctx, np.asarray(src.longitudes)); _lon_obligations(ctx, np.asarray(tgt.longitudes))
+    _slice_checks(ctx, rg, src, tgt, skipna, vals, nanmask, out, a['model'])
+
+
+def r_regrid_batch(ctx, a):
+    """Fields with leading (level/time) axes whose NaN pattern differs from slice to slice:
+    every [lon, lat] slice must be regridded independently of the others."""
+    jnp, hi, vi, sh, sc = J()
+    src, tgt = grid(a['src']), grid(a['tgt'])
+    skipna = bool(a['skipna'])
+    rg = hi.ConservativeRegridder(src, tgt, skipna=skipna)
+    nb, nd = src.nodal_shape; na, nc = tgt.nodal_shape
+    lead = tuple(a['lead']); pats = a['patterns']
+    nsl = int(np.prod(lead))
+    vals = _field(a['fseed'], (nsl, nb, nd))
+    masks = np.stack([_nan_pattern(pats[s % len(pats)], (nb, nd), a['fseed'] + 101 * s) for s in range(nsl)])
+    field = np.where(masks, np.nan, vals).reshape(lead + (nb, nd))
+    out = np.asarray(rg(jnp.asarray(field)))
+    ctx.exact('ConservativeRegridder batched output shape', list(out.shape), list(lead) + [na, nc])
+    outs = out.reshape((nsl, na, nc))
+    for s in range(nsl):
+        one = np.asarray(rg(jnp.asarray(np.where(masks[s], np.nan, vals[s]))))
+        ctx.exact('leading axes are regridded independently: NaN placement of slice = 2-D call on the slice',
+                  np.isnan(outs[s]).astype(int).ravel().tolist(), np.isnan(one).astype(int).ravel().tolist())
+        ctx.oracle('leading axes are regridded independently (NaN placement)', bool(np.array_equal(np.isnan(outs[s]), np.isnan(one))),
+                   {'slice': s, 'pattern': pats[s % len(pats)]})
+        ctx.oracle_close('leading axes are regridded independently (values)', np.nan_to_num(outs[s], nan=0.0, posinf=1e300, neginf=-1e300),
+                         np.nan_to_num(one, nan=0.0, posinf=1e300, neginf=-1e300), scale=float(np.abs(vals).max()) * 1e3)
+        _slice_checks(ctx, rg, src, tgt, skipna, vals[s], masks[s], outs[s], a['model'] and s < 4)
+
+
+def _slice_checks(ctx, rg, src, tgt, skipna, vals, nanmask, out, use_model):
+    """oracles (and model comparison) for one [lon, lat] slice and its regridded output"""
+    jnp, hi, vi, sh, sc = J()
+    nb, nd = src.nodal_shape; na, nc = tgt.nodal_shape
+    field = np.where(nanmask, np.nan, vals)
     slon = np.asarray(src.longitudes); tlon = np.asarray(tgt.longitudes)
     slat = np.asarray(src.latitudes); tlat = np.asarray(tgt.latitudes)
-    _lon_obligations(ctx, slon); _lon_obligations(ctx, tlon)
+    wlon = np.asarray(rg.lon_weights); wlat = np.asarray(rg.lat_weights)
     # implementation-side bookkeeping used by the oracles
     good = np.where(nanmask, 0.0, 1.0)
     frac = np.einsum('ab,cd,bd->ac', wlon, wlat, good)
@@ -476,7 +569,7 @@ def r_regrid2d(ctx, a):
                          scale=float(4 * np.pi * np.abs(vals).max()))
         cst = np.asarray(rg(jnp.full((nb, nd), 1.75)))
         ctx.oracle_close('2d: constants are reproduced', cst, np.full((na, nc), 1.75), scale=1.75)
-    if a['model']:
+    if use_model:
         sb = np.asarray(hi._latitude_cell_bounds(slat)); tb = np.asarray(hi._latitude_cell_bounds(tlat))
         ss = np.asarray(jnp.sin(sb)); st = np.asarray(jnp.sin(tb))
         mm = ctx.model.call(10, [na, nb, nc, nd, int(skipna)] + kfloor(tlon) + kfloor(slon),
@@ -494,4 +587,4 @@ def r_regrid2d(ctx, a):
                  scale=float(np.abs(vals).max()) / max(float(mfrac[both].min()) if both.any() else 1.0, 1e-3))
 
 
-RUNNERS = {'coarse_lon': r_coarse_lon, 'pov': r_pov, 'align': r_align, 'lat': r_lat, 'lon': r_lon, 'vert': r_vert, 'hybrid': r_hybrid, 'regrid2d': r_regrid2d}
+RUNNERS = {'coarse_lon': r_coarse_lon, 'pov': r_pov, 'align': r_align, 'lat': r_lat, 'lon': r_lon, 'vert': r_vert, 'hybrid': r_hybrid, 'regrid2d': r_regrid2d, 'regrid_batch': r_regrid_batch, 'hybrid_batch': r_hybrid_batch}
